@@ -121,6 +121,42 @@ def run_mc(prop, name, module, cfg, workers, timeout, coverage_actions=()):
     return res
 
 
+def mc_emit(prop, name, module, cfg, outfile, workers, timeout):
+    """Specification -> implementation: run an exhaustive config whose invariant `Emit` prints one line
+    <<"REPLAY", "<json>">> per distinct state (a witness behaviour + the state the specification predicts), write the
+    JSON documents to `outfile` (ndjson) for `qxv record <engine> --from-tlc`. Returns the same dict as run_mc plus `emitted`."""
+    rc, out, wall = run_tlc(module, cfg, workers, timeout, os.path.join(WORK, prop, "md_" + name))
+    gen, dist, left, depth = parse_mc(out)
+    res = {"name": name, "module": module, "cfg": cfg, "states_generated": gen, "distinct_states": dist,
+           "depth": depth, "wall_s": round(wall, 1), "ok": False, "violation": None, "emitted": 0}
+    if rc == 124:
+        raise ToolError(f"TLC time-out after {timeout}s on {cfg}")
+    os.makedirs(os.path.dirname(outfile), exist_ok=True)
+    n = 0
+    rest = []
+    with open(outfile, "w") as o:
+        for line in out.splitlines():
+            if line.startswith('<<"REPLAY", '):
+                o.write(json.loads(line.strip()[len('<<"REPLAY", '):-2]) + "\n")
+                n += 1
+            else:
+                rest.append(line)
+    out = "\n".join(rest)
+    res["emitted"] = n
+    if "is violated" in out:
+        m = re.search(r"(Invariant|Action property|Temporal property) (\w+) is violated", out)
+        res["violation"] = m.group(2) if m else "unknown"
+        res["counterexample"] = out[out.find("Error:"):][:6000]
+        return res
+    if "Error: " in out or left != 0 or gen == 0:
+        log(out[-3000:])
+        raise ToolError(f"TLC error on {cfg}")
+    if n == 0:
+        raise ToolError(f"vacuous replay: {cfg} emitted no behaviour")
+    res["ok"] = True
+    return res
+
+
 def record(engine, prefix, shards, args, timeout=3600):
     for f in glob.glob(prefix + ".*.ndjson"):
         os.remove(f)
